@@ -329,7 +329,7 @@ Qed.
 (* certificate block v1                                                                     *)
 (* ====================================================================================== *)
 Definition wf_cb1 (b : cb1) : Prop :=
-  c1_major b < 2 ^ 16 /\ c1_minor b < 2 ^ 16 /\ c1_flags b < 2 ^ 32 /\ c1_build b < 2 ^ 32 /\
+  c1_major b < 2 ^ 16 /\ c1_minor b < 2 ^ 16 /\ c1_flags b < 2 ^ 32 /\ c1_build b < 2 ^ 32 /\ c1_image_length b < 2 ^ 32 /\
   Forall (fun c => nlen c < 2 ^ 32) (c1_certs b) /\ nlen (c1_certs b) < 2 ^ 32 /\ nlen (cert_table (c1_certs b)) < 2 ^ 32 /\
   (length (c1_rkh b) <= 4)%nat /\ (forall h, In h (c1_rkh b) -> length h = 32%nat).
 
@@ -386,11 +386,11 @@ Lemma cb1_roundtrip_lemma al b :
   exists p,
     cb1_parse (cb1_export al b) = Ok p /\
     c1_certs p = c1_certs b /\ c1_flags p = c1_flags b /\ c1_build p = c1_build b /\
-    c1_major p = c1_major b /\ c1_minor p = c1_minor b /\ c1_image_length p = 0 /\
+    c1_major p = c1_major b /\ c1_minor p = c1_minor b /\ c1_image_length p = c1_image_length b /\
     c1_rkh p = slots_v1 (c1_rkh b) /\ cb1_rkth p = cb1_rkth b /\ cb1_fuses p = cb1_fuses b /\
-    (c1_image_length b = 0 -> cb1_export al p = cb1_export al b).
+    cb1_export al p = cb1_export al b.
 Proof.
-  intros Hal (Hmj & Hmn & Hfl & Hbn & Hcs & Hcnt & Htl & Hrl & Hrh).
+  intros Hal (Hmj & Hmn & Hfl & Hbn & Hil & Hcs & Hcnt & Htl & Hrl & Hrh).
   destruct hdr1_facts as (Hs & Ls & Hk & Hz).
   unfold cb1_export, pad_to.
   set (certs := c1_certs b) in *. set (T := cert_table certs) in *. set (R := export_v1 (c1_rkh b)).
@@ -423,6 +423,9 @@ Proof.
   assert (G16 : firstn 4 (skipn 16 d) = le32 (c1_build b)).
   { eapply (FA (hd4 ++ le32 32 ++ le32 (c1_flags b))); [rewrite Ed; unfold hd4; rewrite <- !app_assoc; reflexivity
       |now rewrite !app_length, L4, !le32_length|now rewrite le32_length]. }
+  assert (G20 : firstn 4 (skipn 20 d) = le32 (c1_image_length b)).
+  { eapply (FA (hd4 ++ le32 32 ++ le32 (c1_flags b) ++ le32 (c1_build b))); [rewrite Ed; unfold hd4; rewrite <- !app_assoc; reflexivity
+      |now rewrite !app_length, L4, !le32_length|now rewrite le32_length]. }
   assert (G24 : firstn 4 (skipn 24 d) = le32 (nlen certs)).
   { eapply (FA (hd4 ++ le32 32 ++ le32 (c1_flags b) ++ le32 (c1_build b) ++ le32 (c1_image_length b)));
       [rewrite Ed; unfold hd4; rewrite <- !app_assoc; reflexivity|now rewrite !app_length, L4, !le32_length|now rewrite le32_length]. }
@@ -436,9 +439,9 @@ Proof.
       with ((g_cb1_sig ++ le16 (c1_major b) ++ le16 (c1_minor b) ++ le32 g_cb1_hdr_size ++ le32 (c1_flags b) ++ le32 (c1_build b)
              ++ le32 (c1_image_length b) ++ le32 (nlen certs) ++ le32 (nlen T)) ++ T ++ R ++ P) by (now rewrite <- !app_assoc).
     apply skipn_app_len. now rewrite !app_length, Ls, !le16_length, !le32_length. }
-  rewrite G8, G24, G28, G32, G4, G6, G12, G16.
+  rewrite G8, G24, G28, G32, G4, G6, G12, G16, G20.
   rewrite (le_dec_le32 32) by (vm_compute; reflexivity). cbn [N.eqb Pos.eqb negb].
-  rewrite (le_dec_le32 _ Hcnt), (le_dec_le32 _ Htl), (le_dec_le32 _ Hfl), (le_dec_le32 _ Hbn), (le_dec_le16 _ Hmj), (le_dec_le16 _ Hmn).
+  rewrite (le_dec_le32 _ Hcnt), (le_dec_le32 _ Htl), (le_dec_le32 _ Hfl), (le_dec_le32 _ Hbn), (le_dec_le32 _ Hil), (le_dec_le16 _ Hmj), (le_dec_le16 _ Hmn).
   replace (nlen d <? nlen T + 4 * 32) with false by (symmetry; apply N.ltb_ge; unfold nlen; lia).
   pose proof (cert_table_len certs) as LT. fold T in LT.
   replace (N.to_nat (N.min (nlen certs) (nlen d))) with (length certs) by (unfold nlen; lia).
@@ -458,24 +461,15 @@ Proof.
   split; [reflexivity|]. split; [reflexivity|]. split; [|split].
   - unfold cb1_rkth. cbn [c1_rkh]. unfold rkth_v1. now rewrite EX.
   - unfold cb1_fuses, cb1_rkth. cbn [c1_rkh]. unfold rkth_v1. now rewrite EX.
-  - intros E0. unfold d, P, body, T, cb1_header. cbn [c1_certs c1_flags c1_build c1_major c1_minor c1_image_length c1_rkh].
-    fold certs. unfold R. rewrite EX, E0. reflexivity.
+  - unfold d, P, body, T, cb1_header. cbn [c1_certs c1_flags c1_build c1_major c1_minor c1_image_length c1_rkh].
+    fold certs. unfold R. rewrite EX. reflexivity.
 Qed.
 
-(* known finding C03-F3: image_length is lost by parse, so export (parse (export x)) <> export x when it is not zero *)
-Definition il_block : cb1 :=
-  {| c1_major := 1; c1_minor := 0; c1_flags := 0; c1_build := 0; c1_image_length := 12608; c1_certs := [[48; 0; 0; 0]]; c1_rkh := [] |}.
-Lemma cb1_roundtrip_refuted_lemma :
-  wf_cb1 il_block /\
-  match cb1_parse (cb1_export 16 il_block) with
-  | Ok p => negb (eqb_list (cb1_export 16 p) (cb1_export 16 il_block))
-  | Err _ => false
-  end = true.
+Example wf_cb1_nontrivial :
+  wf_cb1 {| c1_major := 1; c1_minor := 0; c1_flags := 5; c1_build := 7; c1_image_length := 12608; c1_certs := [[48; 0; 0; 0]]; c1_rkh := [zeros 32] |}.
 Proof.
-  split.
-  - unfold wf_cb1, il_block. cbn [c1_major c1_minor c1_flags c1_build c1_certs c1_rkh].
-    split; [vm_compute; reflexivity|]. split; [vm_compute; reflexivity|]. split; [vm_compute; reflexivity|].
-    split; [vm_compute; reflexivity|]. split; [constructor; [vm_compute; reflexivity|constructor]|].
-    split; [vm_compute; reflexivity|]. split; [vm_compute; reflexivity|]. split; [cbn [length]; lia|]. intros h [].
-  - vm_compute. reflexivity.
+  unfold wf_cb1. cbn [c1_major c1_minor c1_flags c1_build c1_image_length c1_certs c1_rkh].
+  split; [vm_compute; reflexivity|]. split; [vm_compute; reflexivity|]. split; [vm_compute; reflexivity|].
+  split; [vm_compute; reflexivity|]. split; [vm_compute; reflexivity|]. split; [constructor; [vm_compute; reflexivity|constructor]|].
+  split; [vm_compute; reflexivity|]. split; [vm_compute; reflexivity|]. split; [cbn [length]; lia|]. intros h [<-|[]]. reflexivity.
 Qed.
